@@ -62,6 +62,7 @@ def main():
     S.extended(run, drv)
     import c03_sub
     c03_sub.subtd(run, drv)
+    c03_sub.subsub_model(run, drv)
     import c03_containers
     c03_containers.containers(run, drv)
     import c03_hist
